@@ -49,6 +49,31 @@ fn expr_tt(e: &LogicalExpr, n: usize, shift: usize) -> String {
 pub fn ser_lines(rng: &mut Rng, idx: u64, maxvars: usize, maxops: usize) -> Vec<String> {
     let mut out = Vec::new();
     match idx % 4 {
+        0 if idx % 8 == 4 => {
+            // to_dimacs of CNFs that did not come from a text: the formula without clauses,
+            // CNFs with empty clauses, CNFs after a few conditionings
+            let mut raw = if rng.chance(1, 3) { Vec::new() } else { gen_cnf(rng, maxvars, maxvars + 2, true) };
+            if rng.chance(1, 4) {
+                raw.push(Vec::new());
+            }
+            let nconds = rng.below(4) as usize;
+            let lits: Vec<(usize, bool)> = (0..nconds).map(|_| (rng.below(maxvars as u64) as usize, rng.coin())).collect();
+            let head = format!(
+                "ser kind=todimacs raw={} conds={}",
+                print_raw(&raw),
+                lits.iter().map(|(v, p)| format!("{}{}", if *p { "p" } else { "n" }, v)).collect::<Vec<_>>().join(".")
+            );
+            let r = guarded(|| {
+                let mut cnf = to_cnf(&raw);
+                for (v, p) in lits.iter() {
+                    if *v < cnf.num_vars() {
+                        cnf = cnf.condition(rsdd::repr::Literal::new(VarLabel::new_usize(*v), *p));
+                    }
+                }
+                format!("cnf={} printed={}", print_cnf(&cnf), esc(&cnf.to_dimacs()))
+            });
+            out.push(format!("{} => {}", head, r.unwrap_or_else(|e| e)));
+        }
         0 => {
             // DIMACS text: header, comments, clauses possibly spanning lines
             // the `dimacs` crate rejects headers announcing zero variables or zero clauses:
@@ -112,31 +137,6 @@ pub fn ser_lines(rng: &mut Rng, idx: u64, maxvars: usize, maxops: usize) -> Vec<
                     mv.iter().map(|(i, s)| format!("{}:{}", i, s)).collect::<Vec<_>>().join(","),
                     expr_tt(&e, n, 0)
                 )
-            });
-            out.push(format!("{} => {}", head, r.unwrap_or_else(|e| e)));
-        }
-        0 if idx % 8 == 4 => {
-            // to_dimacs of CNFs that did not come from a text: the formula without clauses,
-            // CNFs with empty clauses, CNFs after a few conditionings
-            let mut raw = if rng.chance(1, 3) { Vec::new() } else { gen_cnf(rng, maxvars, maxvars + 2, true) };
-            if rng.chance(1, 4) {
-                raw.push(Vec::new());
-            }
-            let nconds = rng.below(4) as usize;
-            let lits: Vec<(usize, bool)> = (0..nconds).map(|_| (rng.below(maxvars as u64) as usize, rng.coin())).collect();
-            let head = format!(
-                "ser kind=todimacs raw={} conds={}",
-                print_raw(&raw),
-                lits.iter().map(|(v, p)| format!("{}{}", if *p { "p" } else { "n" }, v)).collect::<Vec<_>>().join(".")
-            );
-            let r = guarded(|| {
-                let mut cnf = to_cnf(&raw);
-                for (v, p) in lits.iter() {
-                    if *v < cnf.num_vars() {
-                        cnf = cnf.condition(rsdd::repr::Literal::new(VarLabel::new_usize(*v), *p));
-                    }
-                }
-                format!("cnf={} printed={}", print_cnf(&cnf), esc(&cnf.to_dimacs()))
             });
             out.push(format!("{} => {}", head, r.unwrap_or_else(|e| e)));
         }
